@@ -16,13 +16,14 @@ def default_algo(seed):
 
 class Dm14World:
     def __init__(self, seed, seedkey=False, algo=None, srv_algo=None, seeds=None, windows=(255, 255), latency=(0.0001, 0.005), respond_delay=None,
-                 with_server=True):
+                 with_server=True, cli_addr=CLI, srv_addr=SRV):
         self.W = W = World(seed, 'j1939-21', latency)
         self.sim = W.sim
         self.j = j = W.j1939
         self.rng = random.Random(seed ^ 0x1234)
         self.C = W.stack('C', max_cmdt_packets=windows[0])
-        self.ca_c = W.ca(self.C, CLI, identity_number=1)
+        self.cli_addr, self.srv_addr = cli_addr, srv_addr
+        self.ca_c = W.ca(self.C, cli_addr, identity_number=1)
         self.cli = j.MemoryAccess(self.ca_c)
         self.log = []                 # application-level event log: (t, what, details)
         self.ctx = dict(nbytes=0, read_data=None, accept=True, respond=('ok',), respond_delay=respond_delay)
@@ -33,7 +34,7 @@ class Dm14World:
         self.srv = None
         if with_server:
             self.S = W.stack('S', max_cmdt_packets=windows[1])
-            self.ca_s = W.ca(self.S, SRV, identity_number=2)
+            self.ca_s = W.ca(self.S, srv_addr, identity_number=2)
             self.srv = j.MemoryAccess(self.ca_s)
             self.srv.set_proceed(self._proceed)
             self.srv.set_notify(self._notify)
@@ -108,10 +109,10 @@ class Dm14World:
                 try:
                     if op['kind'] == 'read':
                         self.ctx['nbytes'] = op['count'] * op['size']
-                        r['ret'] = obj.read(SRV if 'dest' not in op else op['dest'], op['direct'], op['pointer'], op['count'], op['size'], op['signed'], op['raw'],
+                        r['ret'] = obj.read(self.srv_addr if 'dest' not in op else op['dest'], op['direct'], op['pointer'], op['count'], op['size'], op['signed'], op['raw'],
                                             op.get('timeout', timeout))
                     else:
-                        r['ret'] = obj.write(SRV if 'dest' not in op else op['dest'], op['direct'], op['pointer'], list(op['values']), op['size'],
+                        r['ret'] = obj.write(self.srv_addr if 'dest' not in op else op['dest'], op['direct'], op['pointer'], list(op['values']), op['size'],
                                              op.get('timeout', timeout))
                 except engine.SimThreadKilled:
                     raise
